@@ -1,7 +1,8 @@
 #!/usr/bin/env python3
-"""tools/save_mutant.py <src-dir> <seeded-id> <property> <caught-by comma list or ''> "<needs>" """
+"""tools/save_mutant.py <src-dir> <seeded-id> <property> <caught-by comma list or ''> "<needs>" ["<how the check was strengthened to catch it>"] """
 import json, os, shutil, sys
 src, sid, prop, caught, needs = sys.argv[1:6]
+strengthened = sys.argv[6] if len(sys.argv) > 6 else ''
 dst = os.path.join('/verif/seeded', sid)
 os.makedirs(dst, exist_ok=True)
 shutil.copy(os.path.join(src, 'patch.diff'), os.path.join(dst, 'patch.diff'))
@@ -10,5 +11,7 @@ readme = open(os.path.join(src, 'README.md')).read() if os.path.exists(os.path.j
 meta = {'breaks_property': prop, 'needs_to_manifest': needs, 'description': readme.strip(),
         'confirmed': 'tools/try_mutant.sh: demo exits 0 on the clean tree, the 32 baseline tests pass with the patch, demo exits 1 with the patch',
         'caught_by': [c for c in caught.split(',') if c], 'ran': f'tools/try_mutant.sh seeded/{sid} ' + ' '.join(c for c in caught.split(',') if c)}
+if strengthened:
+    meta['strengthened'] = strengthened
 json.dump(meta, open(os.path.join(dst, 'meta.json'), 'w'), indent=1)
 print('saved', dst)
